@@ -37,7 +37,8 @@ def _construct(w):
     return f"{w.locname()} {w.kind} in {w.ev.fi.qual}: {norm_stmt(w.ev.node)}"
 
 
-def check_entity(p, report, ci, f, it, r_param="R5.1", r_arr="R5.2", r_est="R5.3", ent=None, only_params=None):
+def check_entity(p, report, ci, f, it, r_param="R5.1", r_arr="R5.2", r_est="R5.3", ent=None, only_params=None,
+                 ctor_rng_draws_ok=True):
     ent = ent or f"{ci.name}.{f.name}"
     init = p.init_stored_attrs(ci)
     ws = writes(it.events, roots=("self",), include_params=True)
@@ -49,6 +50,11 @@ def check_entity(p, report, ci, f, it, r_param="R5.1", r_arr="R5.2", r_est="R5.3
             if not path or path[0] not in init:
                 continue
             if r_param is None:
+                continue
+            if ctor_rng_draws_ok and str(w.how).startswith("draw:") and path == ("random_state",):
+                # consuming a caller-supplied RandomState instance is scikit-learn's random_state
+                # contract for estimators (C13); pool queries (C05) work on a seed-multiplier copy and
+                # pass ctor_rng_draws_ok=False
                 continue
             hit_params.add(path[0])
             construct = _construct(w)
@@ -106,7 +112,7 @@ def run(p, report, tier):
         diag |= it.diag
         for _k, _v in it.stats.items():
             callstats[_k] = callstats.get(_k, 0) + _v
-        check_entity(p, report, ci, f, it)
+        check_entity(p, report, ci, f, it, ctor_rng_draws_ok=False)
     report.analysed["member_copy_sites"] = check_member_copies(p, report, "R5.3")
     report.analysed["events"] = nev
     report.analysed["diagnostics"] = sorted(diag)
